@@ -42,6 +42,8 @@ def _file_case(a):
             if r['class'] != 'file' or f.get('profile') != pname:
                 continue
             name = f['name'].encode()
+            if 'l' in f.get('requested_mask', '') and f.get('target'):
+                name += b'\x00' + f['target'].encode()        # a link pair: the compiled policy matches `name NUL target`
             st = d.match(name) if d is not None else 0
             acc = d.accept[st] if st else 0
             owner_access = f.get('fsuid') == f.get('ouid')
